@@ -11,6 +11,10 @@ pub struct EncObs {
     pub res: Result<Result<usize, ()>, PanicSig>,
     pub buf: Vec<u8>,
     pub poison: Vec<u8>,
+    /// which buffer this observation was made into: "roomy" (700 bytes), "tight" (len..len+2),
+    /// "short:claimed-ok" (shorter than the packet and the encoder still reported success) or
+    /// "roomy:after-short-refused" (a shorter buffer was refused or panicked - not judged)
+    pub mode: &'static str,
 }
 
 impl EncObs {
@@ -37,14 +41,44 @@ impl EncObs {
     }
 }
 
+/// One call in three that produced a packet is observed a second time into a *tight* buffer - exactly
+/// the reported length, or one or two bytes more - and that second observation is the one handed to
+/// the monitor: a caller who sizes the buffer to the packet is as entitled to the documented encoding
+/// as one who passes 700 bytes (the encoders size nothing from the spare room). On the unchanged tree
+/// every encoder accepts an exact-fit buffer (C16 observes that on every catalogue call).
+///
+/// One call in sixteen is repeated into a buffer 1-6 bytes *shorter* than the packet. No property says
+/// what must happen then (the unchanged library panics; a refusal would be as good), so a refusal or a
+/// panic there is not judged and the roomy observation is used. But if the encoder reports success -
+/// Ok(m) - it claims to have encoded the message, and what it claims is judged like any other output
+/// (a truncated body or a missing PEC is not the documented encoding).
 pub fn observe(c: &Call, poison_seed: u64) -> EncObs {
     let (res, buf, poison) = encode_poisoned(c, CAP, poison_seed);
-    EncObs { res, buf, poison }
+    if let Ok(Ok(n)) = &res {
+        let h = crate::rng::hash_bytes(poison_seed ^ 0x7169_6774, &c.blob) ^ ((c.dest as u64) << 20) ^ ((c.own as u64) << 28);
+        let h = crate::rng::hash_bytes(h ^ c.form as u64 ^ ((c.data32 as u64) << 8), &c.p);
+        let sel = h % 48;
+        if *n >= 10 && *n + 2 <= CAP {
+            if sel < 16 {
+                let (res, buf, poison) = encode_poisoned(c, *n + (sel % 3) as usize, poison_seed ^ 0x5EED);
+                return EncObs { res, buf, poison, mode: "tight" };
+            } else if sel < 19 {
+                let short = 1 + (h / 48 % 6) as usize;
+                let (r2, b2, p2) = encode_poisoned(c, *n - short.min(*n - 1), poison_seed ^ 0x5407);
+                if let Ok(Ok(_)) = r2 {
+                    return EncObs { res: r2, buf: b2, poison: p2, mode: "short:claimed-ok" };
+                }
+                return EncObs { res, buf, poison, mode: "roomy:after-short-refused" };
+            }
+        }
+    }
+    EncObs { res, buf, poison, mode: "roomy" }
 }
 
 /// Record the per-form outcome class; returns the packet when there is one to judge.
 pub fn note_outcome<'a>(rep: &mut Report, c: &Call, obs: &'a EncObs) -> Option<&'a [u8]> {
     rep.class(&format!("{}:{}", c.form.name(), obs.outcome_class()));
+    rep.class(&format!("buffer:{}", obs.mode));
     match &obs.res {
         Ok(Ok(n)) if *n > obs.buf.len() || *n < 10 => {
             rep.class("reported-length-not-a-packet");
